@@ -114,7 +114,7 @@ class C13(Check):
     technique = 'Coq proof (invariant + induction over histories + refinement to a reference object) ; differential correspondence under a simulated kernel'
     rule = ('cases = histories of write(size, send outcome) / poll event(readiness mask, send outcome) / real-epoll poll / tick / '
             'suspend / resume / read / peer write, read, close / remove, also issued from inside callbacks; exhaustive small scopes: '
-            'write size 0..5 x every outcome x second write x every outcome of the write-ready send; every readiness mask x '
+            'all histories of length 3 (thorough: 4) over 12 (14) representative operations; write size 0..5 x every outcome x second write x every outcome of the write-ready send; every readiness mask x '
             '{backlog, none} x {suspended, not} x outcome; random histories aimed at partial counts 1, n-1, n, n+1. A case is '
             'non-trivial when the implementation had a backlog at some point (sb>0), or got a poll event while suspended, or gave '
             'the connection up; distinct = distinct op text')
@@ -189,6 +189,17 @@ class C13(Check):
                                 cases.append(pre + ['react onRead read 1', 'ev %s %s' % (mask, o), 'poll full', 'poll s1', 'poll full', 'peerread'])
         return Stream('mask-matrix', cases, exhaustive=True,
                       note='readiness mask x {backlog,none} x {suspended,not} x {unread input,none} x outcome (exhaustive in the scope)')
+
+    def gen_all_short(self, thorough):
+        """every history of length L over an alphabet that has one representative per case of the proofs"""
+        alpha = ['write 0102 wb', 'write 030405 s1', 'write 06 full', 'ev o s1', 'ev o full', 'ev io s1', 'ev io wb',
+                 'suspend', 'resume', 'peerwrite 09', 'poll full', 'ev ih s2']
+        if thorough:
+            alpha += ['ev o err', 'react onRead read 9']
+        L = 4 if thorough else 3
+        tail = ['resume', 'ev o full', 'ev o full', 'peerread']
+        cases = [list(c) + tail for c in itertools.product(alpha, repeat=L)]
+        return Stream('all-short', cases, exhaustive=True, note='all %d histories of length %d over %d representative operations' % (len(cases), L, len(alpha)))
 
     def gen_starve(self, rng, thorough):
         """a client that stays readable while it has a backlog: real epoll (poll) and scripted events"""
@@ -294,10 +305,11 @@ class C13(Check):
 
     def streams(self, tier, rng):
         thorough = tier == 'thorough'
-        out = [self.gen_write_matrix(thorough), self.gen_mask_matrix(thorough), self.gen_starve(rng, thorough), self.gen_boundary(rng)]
-        out.append(self.gen_histories(rng, 6000 if thorough else 900, 0.0, 0.04, 'benign-histories',
+        out = [self.gen_write_matrix(thorough), self.gen_mask_matrix(thorough), self.gen_all_short(thorough),
+               self.gen_starve(rng, thorough), self.gen_boundary(rng)]
+        out.append(self.gen_histories(rng, 8000 if thorough else 2500, 0.0, 0.04, 'benign-histories',
                                       'send outcomes would-block / partial / full only (the property\'s quantifier), partial counts aimed at 1, n-1, n, n+1'))
-        out.append(self.gen_histories(rng, 3000 if thorough else 400, 0.5, 0.05, 'faulty-histories',
+        out.append(self.gen_histories(rng, 4000 if thorough else 1200, 0.5, 0.05, 'faulty-histories',
                                       'also send errors, 0 returns, peer close, remove, use after give-up'))
         return out
 
